@@ -150,6 +150,17 @@ CLAIMED = {
              'Pool size bound, idle trimming after expiry (virtual time), one idle worker at rest and the exact list of goroutines alive after Stop are monitored on every explored history.',
         note='Theorems are about coq/SlicePool.v (one node). The bound on the number of nodes rests on C02 and is monitored. Trusted: Coq kernel, extraction, rewriter + shim runtime (virtual time), projection, harness.',
         technique='Coq inductive invariant over a per-node ownership/channel transition system + lock-step trace validation', ref='5 C18'),
+    'C19': dict(
+        text='Machine-checked: (1) the vector-clock race detector run on every explored execution is exact — it accepts an execution iff no two conflicting plain accesses by different threads '
+             'are unordered by happens-before (program order + release-before-acquire, transitively closed), and a reported pair is a real race of that execution, for executions of any length; '
+             '(2) in every trace that follows the lock discipline, two conflicting accesses by different threads are separated by a release by the first and an acquisition by the second, one of '
+             'them exclusive — so a location whose accesses all follow the discipline cannot race on any schedule. Tie to the code on every run: the rewriter logs every plain access to the '
+             'watched library fields; each execution of 13 scenario families (incl. apimix: all pairs of public API calls overlapping) is judged by the extracted detector, cross-checked by an '
+             'independent Go detector, and its per-mutex projections are replayed on the lock-discipline model; the unmodified library also runs under the Go race detector with eight concurrent '
+             'API callers. Partial in the sense the property itself states: race freedom of all programs and schedules is decided per explored execution, not proved.',
+        note='Theorems are about coq/HB.v (detector exactness) and coq/Lockset.v (discipline => ordering). Not covered by the instrumented check: fields not on the watch list, payload memory, the Go runtime; '
+             'native -race runs cover those on OS schedules. Trusted: Coq kernel, extraction, rewriter + shim runtime, the acquire/release table of the projection, harness, Go race detector.',
+        technique='Coq proof of an exact happens-before race detector (extracted, run on every explored execution) + Coq lock-discipline theorem with lock-step trace validation + Go race detector runs', ref='5 C19'),
 }
 
 NA_REASON = 'check not built yet in this round (work in progress; see DESIGN.md section 9 for the order of work)'
